@@ -603,7 +603,7 @@ fn run_history<B: BK>(ctx: &mut Ctx, ops: &[String]) {
             let l = last.len_();
             let minimal = sl.len() == std::cmp::max(1, (l + 7) / 8);
             let clean = (l..sl.len() * 8).all(|i| sl[i / 8] & (1 << (i % 8)) == 0);
-            ctx.out.r("C11", "bitops", minimal && clean, &["byte_view_minimal_and_clean", "bitops", &ks, &hist, &step.to_string()]);
+            ctx.out.r(if prop == "C12" { "C12" } else { "C11" }, "bitops", minimal && clean, &["byte_view_minimal_and_clean", "bitops", &ks, &hist, &step.to_string()]);
         }
         outs.push(io);
     }
@@ -750,6 +750,15 @@ pub fn run_bitbytes<B: BK>(ctx: &mut Ctx) {
             let into = x.clone().into_bytes_();
             ctx.out.r("C14", "bitbytes", enc == into && into == b, &["into_bytes_equals_ssz_encode_and_input", "bf_from", &ks, &hx]);
             ctx.out.r("C14", "bitbytes", x.ssz_bytes_len() == enc.len(), &["ssz_bytes_len", "bf_from", &ks, &hx]);
+            // SSZ encoding through `ssz_append` onto non-empty buffers equals `into_bytes`
+            let mut app_ok = true;
+            for pre in [vec![0xA5u8], vec![0u8; 7], vec![0xffu8; 8]] {
+                let mut buf = pre.clone();
+                x.ssz_append(&mut buf);
+                app_ok &= buf[..pre.len()] == pre[..] && buf[pre.len()..] == into[..];
+            }
+            ctx.out.r("C14", "bitbytes", app_ok, &["ssz_append_equals_into_bytes", "bf_from", &ks, &hx]);
+            ctx.out.r("C10", "bitbytes", app_ok, &["ssz_append_equals_into_bytes", "bf_from", &ks, &hx]);
             let raw = x.clone().raw_();
             ctx.out.r("C14", "bitbytes", raw == x.slice_(), &["into_raw_bytes_is_slice", "bf_from", &ks, &hx]);
             let val = bits_str(x.bits_().into_iter());
@@ -1004,6 +1013,14 @@ pub fn run_arb<B: BK + for<'a> arbitrary::Arbitrary<'a>>(ctx: &mut Ctx) {
             inputs.push(v);
         }
     }
+    // size word 0 (and other small words) followed by arbitrary bytes
+    for w in [0u64, 1, 2, 3] {
+        for tail in [vec![1u8], vec![0xff], vec![0, 1], vec![0x80, 0x01, 0xff], vec![0xff; 9]] {
+            let mut v = w.to_le_bytes().to_vec();
+            v.extend(tail);
+            inputs.push(v);
+        }
+    }
     for _ in 0..(if ctx.thorough { 400 } else { 60 }) {
         let l = g.below(nb + 12).min(170);
         inputs.push((0..l).map(|_| g.next() as u8).collect());
@@ -1032,8 +1049,10 @@ pub fn run_arb<B: BK + for<'a> arbitrary::Arbitrary<'a>>(ctx: &mut Ctx) {
         ctx.out.r("C20", "arb", r.is_ok(), &["arbitrary_no_panic", "arb", &ks, &hx]);
         if let Ok(Ok(x)) = &r {
             successes += 1;
-            let rt = B::from_ssz_bytes(&x.as_ssz_bytes());
-            let valid = kind.len_ok(x.len_()) && matches!(&rt, Ok(y) if y == x);
+            let rt = catch_unwind(AssertUnwindSafe(|| B::from_ssz_bytes(&x.as_ssz_bytes())));
+            let sl = x.slice_();
+            let clean = sl.len() == std::cmp::max(1, (x.len_() + 7) / 8) && (x.len_()..sl.len() * 8).all(|i| sl[i / 8] & (1 << (i % 8)) == 0);
+            let valid = kind.len_ok(x.len_()) && clean && matches!(&rt, Ok(Ok(y)) if y == x);
             ctx.out.r("C20", "arb", valid, &["arbitrary_value_is_valid", "arb", &ks, &hx]);
         }
     }
